@@ -30,6 +30,7 @@ def step (s : DState) (line : String) : DState × String :=
   | some ("kvstr", _) => (s, kvstr toks)
   | some ("ktv", _) => (s, ktv toks)
   | some ("kmsz", _) => (s, kmsz toks)
+  | some ("kxattr", _) => (s, kxattr toks)
   | some ("k13big", _) => (s, k13big toks)
   | some ("kmuxfid", _) => (s, kmuxfid toks)
   | some ("kchunk", _) => (s, kchunk toks)
